@@ -287,6 +287,75 @@ def run(ctx):
     miss = {'_repetitions', '_repeat_until', '_param_resolver'} - rd
     ctx.ob('C12.e', f'{CO}._resolve_parameters_', not miss, f'_resolve_parameters_ does not resolve {sorted(miss)}' if miss else '', rel, fn.lineno)
 
+    # ------------------------------------------------------------------ C12.h
+    ctx.decided.append('C12.h every behaviour protocol of CircuitOperation depends on every field that changes that aspect of the flattened circuit')
+    ctx.rule('C12.h', 'aspect coverage: the fields a behaviour protocol of CircuitOperation reads (through helpers and cached properties) include every '
+             'field that changes that aspect of the flattened circuit - a protocol that never reads param_resolver answers for the unbound circuit', floor=10, style='COH')
+    ASPECT = {
+        '_unitary_': {'_circuit', '_repetitions', '_param_resolver'},
+        '_has_unitary_': {'_circuit', '_param_resolver', '_repeat_until'},
+        '_decompose_': {'_circuit', '_qubit_map', '_measurement_key_map', '_param_resolver', '_repetitions', '_parent_path', '_repetition_ids'},
+        '_act_on_': {'_circuit', '_qubit_map', '_measurement_key_map', '_param_resolver', '_repetitions', '_parent_path', '_repetition_ids', '_repeat_until'},
+        '_qid_shape_': {'_circuit', '_qubit_map'},
+        '_measurement_key_objs_': {'_circuit', '_measurement_key_map', '_parent_path', '_repetition_ids', '_repetitions'},
+        '_control_keys_': {'_circuit', '_measurement_key_map', '_parent_path', '_repeat_until'},
+        '_parameter_names_': {'_circuit', '_param_resolver', '_repetitions', '_repeat_until'},
+        '_is_parameterized_': {'_circuit', '_param_resolver', '_repetitions', '_repeat_until'},
+        'mapped_circuit': {'_circuit', '_qubit_map', '_measurement_key_map', '_param_resolver', '_repetitions', '_parent_path', '_repetition_ids'},
+    }
+    for mn, need in ASPECT.items():
+        fn = ci.methods.get(mn)
+        if fn is None:
+            continue
+        rd = F.self_reads(repo, ci, fn, depth=8)
+        miss = sorted(need - rd)
+        ctx.ob('C12.h', f'{CO}.{mn}:aspect-fields', not miss,
+               '' if not miss else f'{mn} never reads {miss}: its answer is that of the nested circuit without '
+               f'{"the bound parameters" if "_param_resolver" in miss else "those maps"}, not of the flattened circuit', rel, fn.lineno)
+
+    # ------------------------------------------------------------------ C12.i
+    ctx.decided.append('C12.i the sign of `repetitions` (inversion of the nested circuit) is applied exactly once on every path that repeats the circuit')
+    ctx.rule('C12.i', 'negative repetitions invert the circuit exactly once: a method that repeats/powers the already inverted mapped loop (_mapped_any_loop / '
+             '_mapped_single_loop) uses abs(repetitions); a method that works on the raw nested circuit uses the signed count', floor=2, style='MPT')
+    parents = ci.mod.parents()
+    for mn, fn in ci.methods.items():
+        if mn in ('_mapped_any_loop', '__init__', 'replace', '__repr__', '__str__', '_json_dict_', '_hash', '__eq__'):
+            continue
+        uses_mapped = any(isinstance(n, ast.Attribute) and n.attr in ('_mapped_any_loop', '_mapped_single_loop') for n in ast.walk(fn))
+        uses_raw = any(isinstance(n, ast.Attribute) and n.attr in ('circuit', '_circuit') and isinstance(n.value, ast.Name) and n.value.id == 'self' for n in ast.walk(fn))
+        counts = []
+        for n in ast.walk(fn):
+            if isinstance(n, ast.Attribute) and n.attr in ('repetitions', '_repetitions') and isinstance(n.value, ast.Name) and n.value.id == 'self':
+                # arithmetic use: operand of * / ** or argument of matrix_power / range, possibly through cast()/abs()
+                cur, in_abs, arith = n, False, False
+                while cur in parents:
+                    p_ = parents[cur]
+                    if isinstance(p_, ast.Call) and call_name(p_) == 'abs':
+                        in_abs = True
+                    elif isinstance(p_, ast.Call) and call_name(p_) in ('cast', 'int'):
+                        pass
+                    elif isinstance(p_, ast.BinOp) and isinstance(p_.op, (ast.Mult, ast.Pow)):
+                        arith = True
+                        break
+                    elif isinstance(p_, ast.Call) and call_name(p_) in ('matrix_power', 'range'):
+                        arith = True
+                        break
+                    else:
+                        break
+                    cur = p_
+                if arith:
+                    counts.append((n.lineno, in_abs))
+        if not counts or not (uses_mapped or uses_raw):
+            continue
+        for line, in_abs in counts:
+            if uses_mapped:
+                ok = in_abs
+                msg = f'{mn} repeats the mapped loop (already inverted for negative repetitions) by the signed count: the inversion is applied twice'
+            else:
+                ok = not in_abs
+                msg = f'{mn} repeats the raw nested circuit by abs(repetitions): the inversion requested by a negative count is lost'
+            ctx.ob('C12.i', f'{CO}.{mn}:repetition-sign', ok, '' if ok else msg, rel, line)
+
 
 def _is_carrying(v, ci, builders, params, assigned, depth=0):
     """Is expression v a CircuitOperation that carries all fields of self?"""
